@@ -27,6 +27,7 @@ AFTER = {
     "C17-read-overwrites-concurrent-write": "part (C): threads sharing one cached channel, unique values, offline register check, hook-stretched miss window (found a genuine lost-write race first, fixed: fdd739d0; the seeded patch is kept ported onto that fix)",
     "C14-journal-writer-escape-after-tag-csum": "pipeline through debugfs' journal writer (checksum v2/v3, blocks to escape, revoke) with an independent log walker recomputing every journal checksum",
     "C05-rehash-casefold-compare-without-flag": "corpus image with the casefold feature and case-SENSITIVE single-block directories holding names that differ only in case",
+    "C01-clone-dirblock-list-unadjusted-bigalloc": "directed cases: a regular file claims the first block of a multi-block directory (passes 1B-1D must clone it) on every corpus image, incl. the three bigalloc ones",
     "C05-empty-xattr-value-collision": "corpus image with 128-byte inodes and empty-valued attributes in xattr blocks",
 }
 rows = []
